@@ -186,7 +186,8 @@ def polars_scalar_in_agg_quirk(case):
     literal argument next to a when/then chain with a literal branch value) as a length-1 scalar when it is evaluated
     inside an aggregation: `df.select(pl.max_horizontal(pl.lit(7), w).sum())` returns 7 for three rows whose row-wise
     maximum is 7 each (reproduced with plain Polars, DESIGN 4.15 l).  Shape: an aggregate / window function whose
-    arguments or context arguments contain such a horizontal call."""
+    arguments or context arguments contain such a horizontal call, or a horizontal call / fill_null / coalesce / is_in
+    whose *first* argument is literal-only (`sum(lit != fill_null(lit, col))` is computed over one row)."""
     from .ir import AGG_OPS, WIN_OPS, step_exprs, walk_expr
 
     def lit_branch(e):
@@ -194,8 +195,10 @@ def polars_scalar_in_agg_quirk(case):
                    for nd in walk_expr(e))
 
     def shape(e):
-        return any(nd[0] == "fn" and nd[1] in ("hmax", "hmin", "hsum", "hany", "hall", "coalesce", "fill_null")
-                   and any(_no_col(a) for a in nd[2]) and any(lit_branch(a) for a in nd[2]) for nd in walk_expr(e))
+        return any(nd[0] == "fn" and nd[1] in ("hmax", "hmin", "hsum", "hany", "hall", "coalesce", "fill_null", "is_in") and nd[2]
+                   and ((any(_no_col(a) for a in nd[2]) and any(lit_branch(a) for a in nd[2]))
+                        or _no_col(nd[2][0]))  # the literal first argument decides the length of the result (a)
+                   for nd in walk_expr(e))
 
     exprs = [e for s in case.get("steps", []) for e in step_exprs(s)]
     if isinstance(case.get("expr"), dict) and "expr" in case["expr"]:
@@ -427,6 +430,9 @@ def examine_pipeline(case, out: Outcome, *, backends=("polars", "sqlite"), ref_c
                 pl_tbl = run.built["polars"].vars[rv]
                 if _noopt_agrees(pl_tbl, lambda d: differential_compare(run.ref.vars[rv], d, b)):
                     out.count("engine_quirk:polars_optimizer")
+                    continue
+                if polars_scalar_in_agg_quirk(run.case2):
+                    out.count("engine_quirk:polars_scalar_in_agg")
                     continue
                 if sqlite_full_join_quirk(run.case2, rv):
                     out.count("engine_quirk:sqlite_full_join_in_compound_subquery")
